@@ -74,7 +74,7 @@ CHECKS = {
          "DESIGN.md section 3 C08"),
  "C18": ("exploration",
          "model-based property testing with harness-rendered documents and ground-truth positions; exhaustive single/double violated-leaf enumeration + proptest documents/streams; recording Localizer as observation channel",
-         "A fixed family of garde+validator types; documents rendered by the harness with every leaf supplied directly / through aliases / through merges; all 21 leaves x 8 supplies (direct, anchored, alias, `<<: *base`, overriding a merged value, merged alias, merged mapping written in place, alias inside such a mapping) x 7 entry points x 2 crates x 3 styles with one violated leaf, all 210 leaf pairs, random documents and streams: validated entry points == plain ones when nothing is violated; otherwise the reported path set equals the harness-evaluated constraint set, each path's use site / definition site equal the renderer's ground truth (observed through a recording Localizer and Error::locations()), every failing document of a stream is reported; documents whose root is a sequence of validated structs keep their positions; a violated field filled by its serde default is named by the plain and the miette rendering; a 260 MiB stream of valid documents gives the same items through read and the validating iterators. Exploration over enumerated and sampled documents.",
+         "A fixed family of garde+validator types; documents rendered by the harness with every leaf supplied directly / through aliases / through merges; all 21 leaves x 8 supplies (direct, anchored, alias, `<<: *base`, overriding a merged value, merged alias, merged mapping written in place, alias inside such a mapping) x 7 entry points x 2 crates x 3 styles with one violated leaf, all 210 leaf pairs, random documents and streams: validated entry points == plain ones when nothing is violated; otherwise the reported path set equals the harness-evaluated constraint set, each path's use site / definition site equal the renderer's ground truth (observed through a recording Localizer and Error::locations()), every failing document of a stream is reported; documents whose root is a sequence of validated structs keep their positions; a violated field filled by its serde default is named by the plain and the miette rendering; garde issues inside an Option (keyless path component) and validator struct-level (schema) issues are located; a 260 MiB stream of valid documents gives the same items through read and the validating iterators. Exploration over enumerated and sampled documents.",
          "trusts the harness' renderer positions and constraint evaluator (cross-checked against the crates' own validate()); use site of values through merges / aliased mappings and locations of validator map entries are not fixed by the docs and only safety-checked",
          "DESIGN.md section 3 C18; notes/report-C18.md"),
  "C07": ("exploration",
